@@ -37,7 +37,7 @@ def run():
         return rep
     sections_parallel(rep, [("helpers", _helpers), ("copies", _copies), ("enum", _enum), ("fill", _fill), ("lemmas", _lemmas),
                             ("bins", _bins), ("query", _query), ("tensor", lambda r: _tensor(r, [False])), ("tensor-inf", lambda r: _tensor(r, [True])),
-                            ("wrapper", _wrapper), ("driver", _driver)], jobs=12)
+                            ("wrapper", _wrapper), ("getdistances", _getdistances), ("driver", _driver)], jobs=12)
     return rep
 
 
@@ -1048,6 +1048,160 @@ def _wrapper(rep):
     from engine.common import func_source_info
     rep.functions.append(func_source_info(REL, "get_displacement_tensor"))
     rep.functions.append(func_source_info(REL, "expand_pbc"))
+
+
+def _getdistances(rep):
+    """geometry.get_distances (observation point of the property): for every structure the MIC tables it hands out are the ones of
+    get_displacement_tensor(positions, cell, pbc) with an unbounded cutoff (any periodic direction), or the plain differences (none);
+    radii-corrected distances are dist - r_i - r_j. Positions, cell and radii are symbolic, all 8 pbc combinations."""
+    import itertools
+    import z3
+    from engine.pyvc import Explorer, Interp, SR, sreal, z3num
+    from engine.aseshim import sym_cell
+    m = contexts.geometry_ctx()
+    REL = "matid/geometry/geometry.py"
+    FNQ = REL + ":get_distances"
+    f = m.get("get_distances")
+    old_D = m.globals.get("Distances")
+    m.globals["Distances"] = lambda *a, **k: ("Distances", a, k)
+    try:
+        for pbc in itertools.product((False, True), repeat=3):
+            tagp = "".join("T" if b else "F" for b in pbc)
+            ex = Explorer(FNQ)
+            box = {}
+
+            def thunk(st, pbc=pbc):
+                P = np.empty((2, 3), dtype=object)
+                for i in range(2):
+                    for k in range(3):
+                        P[i, k] = sreal("p%d%d" % (i, k))
+                C = sym_cell("c")
+                calls = []
+                R = np.array([sreal("r0"), sreal("r1")], dtype=object)
+
+                class Sys:
+                    def get_positions(self, wrap=False):
+                        return P
+
+                    def get_cell(self):
+                        return C
+
+                    def get_pbc(self):
+                        return np.array(pbc)
+
+                    def get_atomic_numbers(self):
+                        return np.array([1, 8])
+
+                    def __len__(self):
+                        return 2
+
+                def tensor(it, st, bound, site):
+                    calls.append(dict(bound))
+                    D = np.empty((2, 2, 3), dtype=object)
+                    F = np.empty((2, 2, 3), dtype=object)
+                    M = np.empty((2, 2), dtype=object)
+                    for idx in np.ndindex(2, 2, 3):
+                        D[idx] = SR(st.fresh_real("disp"))
+                        F[idx] = SR(st.fresh_real("fac"))
+                    for idx in np.ndindex(2, 2):
+                        M[idx] = SR(st.fresh_real("dist"))
+                    box["tok"] = (D, F, M)
+                    out = [D] + ([F] if bound["return_factors"] else []) + ([M] if bound["return_distances"] else [])
+                    return out[0] if len(out) == 1 else tuple(out)
+
+                it = Interp(st, contracts={REL + ":get_displacement_tensor": tensor, REL + ":get_radii": lambda it, st, bound, site: R})
+                r = it.run_func(f, [Sys()], {})
+                box.update(P=P, C=C, R=R, calls=calls, st=st)
+                # ---- post-condition on this path
+                bad = []
+                if len(calls) != 1:
+                    bad.append("get_displacement_tensor called %d times" % len(calls))
+                else:
+                    b = calls[0]
+                    D, F, M = box["tok"]
+                    if b["positions"] is not P:
+                        bad.append("positions passed are not the structure's positions")
+                    if b.get("cutoff") not in (None, float("inf")):
+                        bad.append("cutoff %r: not unbounded" % (b.get("cutoff"),))
+                    if any(pbc):
+                        if b.get("cell") is not C:
+                            bad.append("cell passed is not the structure's cell")
+                        pb = b.get("pbc")
+                        pbl = [bool(pb)] * 3 if isinstance(pb, (bool, np.bool_)) else [bool(x) for x in pb]
+                        if pbl != list(pbc):
+                            bad.append("pbc passed %s for structure pbc %s" % (pbl, list(pbc)))
+                    else:
+                        pb = b.get("pbc")
+                        pbl = [bool(pb)] * 3 if isinstance(pb, (bool, np.bool_)) else [bool(x) for x in pb]
+                        if any(pbl):
+                            bad.append("periodic search for a non-periodic structure")
+                    if not (isinstance(r, tuple) and r and r[0] == "Distances"):
+                        bad.append("does not return a Distances object")
+                    else:
+                        a = list(r[1]) + [None] * 4
+                        kw = r[2]
+                        disp = kw.get("disp_tensor_mic", a[0])
+                        fac = kw.get("disp_factors", a[1])
+                        dist = kw.get("dist_matrix_mic", a[2])
+                        drad = kw.get("dist_matrix_radii_mic", a[3])
+                        if disp is not D:
+                            bad.append("disp_tensor_mic is not the table of get_displacement_tensor")
+                        if dist is not M:
+                            bad.append("dist_matrix_mic is not the table of get_displacement_tensor")
+                        if any(pbc):
+                            if fac is not F:
+                                bad.append("disp_factors is not the table of get_displacement_tensor")
+                        elif not (np.shape(fac) == (2, 2, 3) and all(v == 0 for v in np.array(fac, dtype=object).reshape(-1))):
+                            bad.append("factors of a non-periodic structure are not zero")
+                        try:
+                            goal = z3.And([z3num(np.asarray(drad, dtype=object)[i, j]) == z3num(M[i, j]) - z3num(R[i]) - z3num(R[j]) for i in range(2) for j in range(2)])
+                            s = z3.Solver()
+                            s.set("timeout", 10000)
+                            s.add(st.pc)
+                            s.add(z3.Not(goal))
+                            if s.check() != z3.unsat:
+                                bad.append("dist_matrix_radii_mic is not dist - r_i - r_j")
+                            if np.asarray(drad, dtype=object) is M:
+                                bad.append("radii-corrected matrix aliases the distance matrix")
+                        except Exception as e:  # noqa
+                            bad.append("radii-corrected matrix: %s" % e)
+                if bad:
+                    sv = z3.Solver()
+                    sv.set("timeout", 5000)
+                    sv.add(st.pc)
+                    wit = None
+                    if sv.check() == z3.sat:
+                        mdl = sv.model()
+
+                        def val(x):
+                            v = mdl.eval(z3num(x), model_completion=True)
+                            try:
+                                return float(v.as_fraction())
+                            except Exception:
+                                return float(v.approx(12).as_fraction()) if hasattr(v, "approx") else 0.0
+                        wit = {"positions": [[val(P[i, k]) for k in range(3)] for i in range(2)], "cell": [[val(C[i, k]) for k in range(3)] for i in range(2 + 1)], "pbc": list(pbc)}
+                    box.setdefault("bad", []).append((bad, wit))
+                return r
+
+            oc = ex.explore(thunk)
+            bads = box.get("bad", [])
+            raises = [o for o in oc if o[0] == "raise"]
+            ok = not bads and not raises and len(oc) >= 1
+            det = ""
+            wit = {"pbc": list(pbc)}
+            if bads:
+                det = "; ".join(bads[0][0])
+                if bads[0][1]:
+                    wit.update(bads[0][1])
+                    det += " | structure: %s" % (bads[0][1],)
+            elif raises:
+                det = "raises %r" % (raises[0][1],)
+            rep.add(Ob(id="get_distances[pbc=%s].tables-are-the-periodic-search-of-the-structure" % tagp, status="proved" if ok else "refuted", backend="pyvc+z3", kind="vc",
+                       func=FNQ, detail=det[:900], witness=wit))
+    finally:
+        m.globals["Distances"] = old_D
+    from engine.common import func_source_info
+    rep.functions.append(func_source_info(REL, "get_distances"))
 
 
 def _driver(rep):
